@@ -157,6 +157,9 @@ func RunScalarClosedForm(c *core.Ctx, checkOptimality bool) {
 		return
 	}
 	seq := estimateScalar(e1, x, gamma, tp.ThreadPool{})
+	if sequentialPanics(c, seq) {
+		return
+	}
 	e2, _ := fam.mk()
 	var par outcome
 	res, abort, pv, site := simRun(c, cfg, func(p tp.ThreadPool) { par = estimateScalar(e2, x, gamma, p) })
@@ -296,6 +299,9 @@ func RunScalarMixture(c *core.Ctx, checkEM bool) {
 	}
 	tr1, tr2 := &emTrace{}, &emTrace{}
 	seq := run(tp.ThreadPool{}, tr1)
+	if sequentialPanics(c, seq) {
+		return
+	}
 	var par outcome
 	res, abort, pv, site := simRun(c, cfg, func(p tp.ThreadPool) { par = run(p, tr2) })
 	if abort != nil {
@@ -448,6 +454,9 @@ func RunVectorHmm(c *core.Ctx, checkEM bool) {
 		return o
 	}
 	seq := run(tp.ThreadPool{})
+	if sequentialPanics(c, seq) {
+		return
+	}
 	var par outcome
 	res, abort, pv, site := simRun(c, cfg, func(p tp.ThreadPool) { par = run(p) })
 	if abort != nil {
